@@ -258,3 +258,32 @@ def is_iter_next(e):
 
 def mentions_iter_next(e):
     return any(is_iter_next(x) for x in walk(e))
+
+
+def result_arms(fn, fa, pred):
+    """Switches on the discriminant of a Result/Option-like value whose expression satisfies pred(expr):
+    [(switch bb, {variant name: target bb})]."""
+    from .cfg import cfg_of
+    from .expr import VARIANTS
+    cfg = cfg_of(fn)
+    out = []
+    for bi, blk in enumerate(fn.blocks):
+        t = blk["term"]
+        if blk["cleanup"] or t["k"] != "switch":
+            continue
+        v = fa.val_operand(t["d"], (bi, len(blk["stmts"])))
+        if v[0] != "discr" or not pred(v[1]):
+            continue
+        names = dict(VARIANTS.get(v[1], ()))
+        vals, other = cfg.feasible_switch_values(bi)
+        arms = {}
+        listed = set()
+        for (val, tgt) in vals:
+            arms[names.get(val, val)] = tgt
+            listed.add(val)
+        if other is not None:
+            for val, nm in names.items():
+                if val not in listed:
+                    arms[nm] = other
+        out.append((bi, arms))
+    return out
